@@ -7,7 +7,7 @@ from geneticengine.grammar.metahandlers.base import MetaHandlerGenerator
 from geneticengine.random.sources import RandomSource
 
 
-@dataclass
+@dataclass(repr=False)
 class Dependent(MetaHandlerGenerator):
     name: str
     callable: Callable[[Any], type]
@@ -27,6 +27,9 @@ class Dependent(MetaHandlerGenerator):
         t: Any = self.callable(*values)
         v = rec(Annotated[base_type, t])
         return v
+
+    def __repr__(self):
+        return f"Dependent[{self.name}]"
 
     def __hash__(self):
         return hash(self.__class__) + hash(self.name) + hash(id(self.callable))
